@@ -472,7 +472,7 @@ func c16TicketState(c *Ctx) {
 			}
 			switch fieldName(fa.X.Type(), fa.Field) {
 			case "certsFromClient":
-				if p, isP := st.Val.(*ssa.Parameter); isP && p.Name() == "certificates" {
+				if p, isP := st.Val.(*ssa.Parameter); isP && pname(p) == "certificates" {
 					fromParam = true
 				}
 			case "peerCertificates":
@@ -510,7 +510,7 @@ func c16LRU(c *Ctx) {
 	}
 	var keyParam *ssa.Parameter
 	for _, p := range f.Params {
-		if p.Name() == "sessionKey" {
+		if pname(p) == "sessionKey" {
 			keyParam = p
 		}
 	}
